@@ -649,19 +649,14 @@ class PortCollection (object):
       for p in self._ports:
         if p.port_no == index:
           return p
-    elif isinstance(index, EthAddr):
-      for p in self._ports:
-        if p.hw_addr == index:
-          return p
+      if self._chain and index not in self._masks:
+        return self._chain[index]
     else:
-      for p in self._ports:
-        if p.name == index:
-          return p
-    if self._chain:
-      p = self._chain[index]
-      if p.port_no not in self._masks:
-        # Not if we have our own (newer) version of that port
-        if not any(q.port_no == p.port_no for q in self._ports):
+      # By hardware address or name: look at the up-to-date version of every
+      # port (several ports may share an address, and a parent may still
+      # know a port by an attribute it no longer has)
+      for p in self.values():
+        if (p.hw_addr if isinstance(index, EthAddr) else p.name) == index:
           return p
 
     raise IndexError("No key %s" % (index,))
